@@ -84,6 +84,7 @@ class _SimRawWriter(io.RawIOBase):
     def seekable(self) -> bool:
         return False
 
+
     def write(self, b: Any) -> int:  # type: ignore[override]
         d = self.disk
         w = d.world
@@ -111,6 +112,56 @@ class _SimRawWriter(io.RawIOBase):
         self.pos += n
         w.log.add("disk_write", [self.path, n])
         return n
+
+
+class _SimWriteFile:
+    """What SimDisk.open(..., 'wb') returns: CPython's real io.BufferedWriter does the buffering and the retrying of
+    short writes; this thin wrapper adds fileno() (for os.fsync) without being an io.BufferedWriter instance, so that
+    numpy keeps using write() instead of handing a fake descriptor to ndarray.tofile."""
+
+    def __init__(self, disk: "SimDisk", path: str, inode: _Inode, buffered: io.BufferedWriter):
+        self._disk, self._path, self._inode, self._b = disk, path, inode, buffered
+        self.name = path
+        self.mode = "wb"
+
+    def write(self, b: Any) -> int:
+        return self._b.write(b)
+
+    def flush(self) -> None:
+        self._b.flush()
+
+    def fileno(self) -> int:
+        return self._disk.fd_for(self._inode)
+
+    def tell(self) -> int:
+        return self._b.tell()
+
+    def writable(self) -> bool:
+        return True
+
+    def readable(self) -> bool:
+        return False
+
+    def seekable(self) -> bool:
+        return False
+
+    @property
+    def closed(self) -> bool:
+        return self._b.closed
+
+    def close(self) -> None:
+        already = self._b.closed
+        self._b.close()
+        if not already:
+            d = self._disk
+            d.writes_completed[self._path] = d.writes_completed.get(self._path, 0) + 1
+            d.world.log.add("disk_close", [self._path, len(self._inode.cache or b"")])
+
+    def __enter__(self) -> "_SimWriteFile":
+        return self
+
+    def __exit__(self, *exc: Any) -> None:
+        self.close()
 
 
 class _SimRawReader(io.RawIOBase):
@@ -175,7 +226,60 @@ class SimDisk:
         self.read_faults: dict[int, str] = {}
         self.buffer_size = io.DEFAULT_BUFFER_SIZE
         self.dead = False  # set while a crash unwinds: buffered data is never flushed
+        self.fds: dict[int, _Inode] = {}
         self.writes_completed: dict[str, int] = {}  # path -> number of successful closes
+
+    # ---- the part of `os` a checkpoint routine may use (installed only if the module under test imports os)
+    def fd_for(self, inode: "_Inode") -> int:
+        for fd, ino in self.fds.items():
+            if ino is inode:
+                return fd
+        fd = 1000 + len(self.fds)
+        self.fds[fd] = inode
+        return fd
+
+    def fsync(self, fd: int) -> None:
+        self.world.seam("disk_fsync")
+        if self.dead:
+            raise SimCrash("process is dead")
+        ino = self.fds.get(fd)
+        if ino is None:
+            raise OSError(errno.EBADF, "Bad file descriptor (simulated)")
+        if ino.cache is not None:
+            ino.durable = bytes(ino.cache)
+            ino.cache = None
+            self.world.faults.hit("disk_fsync")
+        self.world.log.add("disk_fsync", fd)
+
+    def rename(self, src: str, dst: str) -> None:
+        """atomic in the namespace; the data of the moved inode is only as durable as it was (a rename without
+        fsync can survive a crash with torn content - the classic checkpoint bug)"""
+        self.world.seam("disk_rename")
+        if self.dead:
+            raise SimCrash("process is dead")
+        src, dst = str(src), str(dst)
+        if src not in self.inodes or self.inodes[src].visible() is None:
+            raise FileNotFoundError(errno.ENOENT, "No such file (simulated)", src)
+        self.inodes[dst] = self.inodes.pop(src)
+        self.world.log.add("disk_rename", [src, dst])
+
+    def remove(self, path: str) -> None:
+        self.world.seam("disk_remove")
+        path = str(path)
+        if path not in self.inodes or self.inodes[path].visible() is None:
+            raise FileNotFoundError(errno.ENOENT, "No such file (simulated)", path)
+        del self.inodes[path]
+        self.world.log.add("disk_remove", path)
+
+    def exists(self, path: str) -> bool:
+        ino = self.inodes.get(str(path))
+        return ino is not None and ino.visible() is not None
+
+    def getsize(self, path: str) -> int:
+        c = self.content(str(path))
+        if c is None:
+            raise FileNotFoundError(errno.ENOENT, "No such file (simulated)", path)
+        return len(c)
 
     def open(self, path: str, mode: str = "r", *a: Any, **kw: Any) -> Any:
         w = self.world
@@ -184,22 +288,17 @@ class SimDisk:
         path = str(path)
         if "b" not in mode:
             raise ValueError("SimDisk only supports binary mode")
-        if "w" in mode:
+        if "w" in mode or "a" in mode or "x" in mode:
+            if "x" in mode and self.exists(path):
+                raise FileExistsError(errno.EEXIST, "File exists (simulated)", path)
             ino = self.inodes.setdefault(path, _Inode())
-            ino.cache = bytearray()  # O_TRUNC happens at open, in the cache
+            if "a" in mode:
+                ino.cache = bytearray(ino.visible() or b"")
+            else:
+                ino.cache = bytearray()  # O_TRUNC happens at open, in the cache
             w.log.add("disk_open", [path, "wb"])
             raw = _SimRawWriter(self, path, ino)
-            disk = self
-
-            class _BW(io.BufferedWriter):
-                def close(self_inner) -> None:  # noqa: N805
-                    already = self_inner.closed
-                    super().close()
-                    if not already:
-                        disk.writes_completed[path] = disk.writes_completed.get(path, 0) + 1
-                        w.log.add("disk_close", [path, len(ino.cache or b"")])
-
-            return _BW(raw, buffer_size=self.buffer_size)
+            return _SimWriteFile(self, path, ino, io.BufferedWriter(raw, buffer_size=self.buffer_size))
         if "r" in mode:
             ino = self.inodes.get(path)
             data = ino.visible() if ino is not None else None
@@ -256,6 +355,58 @@ class SimDisk:
     def content(self, path: str) -> Optional[bytes]:
         ino = self.inodes.get(path)
         return None if ino is None else ino.visible()
+
+
+class _SimOSPath:
+    def __init__(self, disk: "SimDisk"):
+        import os as _os
+
+        self._disk = disk
+        self._real = _os.path
+
+    def exists(self, p: Any) -> bool:
+        return self._disk.exists(p)
+
+    isfile = exists
+
+    def getsize(self, p: Any) -> int:
+        return self._disk.getsize(p)
+
+    def __getattr__(self, name: str) -> Any:  # join, basename, splitext, ... are pure functions
+        return getattr(self._real, name)
+
+
+class SimOS:
+    """Stands in for `os` inside ginjax.ml.training if (and only if) that module imports it, so that a checkpoint
+    routine written with temp files, rename/replace, fsync or remove runs against the same simulated disk."""
+
+    def __init__(self, disk: "SimDisk"):
+        import os as _os
+
+        self._disk = disk
+        self._real = _os
+        self.path = _SimOSPath(disk)
+
+    def rename(self, src: Any, dst: Any) -> None:
+        self._disk.rename(src, dst)
+
+    replace = rename
+
+    def remove(self, p: Any) -> None:
+        self._disk.remove(p)
+
+    unlink = remove
+
+    def fsync(self, fd: int) -> None:
+        self._disk.fsync(fd)
+
+    def makedirs(self, *a: Any, **kw: Any) -> None:
+        return None
+
+    mkdir = makedirs
+
+    def __getattr__(self, name: str) -> Any:  # getpid, environ, sep, ...
+        return getattr(self._real, name)
 
 
 # --------------------------------------------------------------------------- wandb
@@ -356,6 +507,9 @@ class World:
         training.wandb = self.wandb  # type: ignore[assignment]
         training.open = self.disk.open  # type: ignore[attr-defined]
         training.get_batches = get_batches
+        if "os" in training.__dict__:  # only if the module under test uses os at all
+            self._saved["os"] = training.os
+            training.os = SimOS(self.disk)  # type: ignore[attr-defined]
         self._installed = True
 
     def uninstall(self) -> None:
@@ -368,6 +522,8 @@ class World:
         training.get_batches = self._saved["get_batches"]
         if not self._saved["has_open"] and "open" in training.__dict__:
             del training.open  # type: ignore[attr-defined]
+        if "os" in self._saved:
+            training.os = self._saved["os"]  # type: ignore[attr-defined]
         self._installed = False
 
     def __enter__(self) -> "World":
